@@ -26,10 +26,9 @@ Definition sort_edits (l : list edit) : list edit := fold_right insert_edit [] l
 
 Definition apply_edit (s : string) (e : edit) : result string :=
   let start := e_loc e in
-  if (zlen s <? start)%Z then Err "edit start location is out of bounds"
+  if ((zlen s <? start) || (start <? 0))%Z then Err "edit start location is out of bounds"
   else if String.eqb (e_new e) "" then Err "empty edit contents"
   else if String.eqb (e_old e) "" then Err "empty edit contents"
-  else if (start <? 0)%Z then Panic "slice bounds out of range"
   else
     let stop := (start + zlen (e_old e) - 1)%Z in
     if (stop <? zlen s)%Z
@@ -138,7 +137,7 @@ Fixpoint line_number_loop (src : string) (head : Z) (rs : list (Z * N))
         if (ch =? 45)%N then
           match byte_at src (i + 1) with
           | Some b => Ok (if (b =? 45)%N then true else comment)
-          | None => Panic "index out of range: source[i+1]"
+          | None => Ok comment
           end
         else Ok comment in
       match after_dash with
